@@ -9,7 +9,7 @@ open BearVerif.Conf
 def confEnumClasses : List String := ["BeartypeDecorPlace", "BeartypeStrategy", "BeartypeViolationVerbosity"]
 
 /-- does `die_if_conf_kwargs_invalid` end with the generic hashability test? -/
-def confHashCheck : Bool := false
+def confHashCheck : Bool := true
 
 def confTable : Table where
   opts := [
